@@ -481,6 +481,17 @@ class Engine:
             st.assume(class_of(o) == self.ext_cid(cls))
         return SV(OBJ(cls), o)
 
+    def new_obj_sub(self, st: State, cls: Optional[str], base: str = "new") -> SV:
+        """a newly allocated object whose class is `cls` or one of its subclasses (no class constraint when cls is unknown)"""
+        o = z3.Const(fresh_name(base), Obj)
+        if st.alive is None:
+            st.alive = z3.Const("alive0", z3.ArraySort(Obj, z3.BoolSort()))
+        st.assume(Not(z3.Select(st.alive, o)))
+        st.alive = z3.Store(st.alive, o, TRUE)
+        if cls in self.repo.classes:
+            st.assume(self.class_in(o, cls))
+        return SV(OBJ(cls), o)
+
     # ------------------------------------------------------------ raising
     def may_raise(self, exc: str, cond, label: str):
         """Record that the operation raises `exc` when `cond`; execution continues assuming not cond."""
@@ -1324,6 +1335,8 @@ class Engine:
             res = none_sv()
         elif c.fresh_result and rty.kind == "obj":
             res = self.new_obj(st, rty.cls, base=f"{short}_res")
+        elif "result" in c.fresh_paths and rty.kind == "obj":
+            res = self.new_obj_sub(st, rty.cls, base=f"{short}_res")
         else:
             res = fresh_sv(rty, f"{short}_res")
             self.wf(st, res)
@@ -1334,6 +1347,24 @@ class Engine:
                 gv = fresh_sv(parse_type(gty), f"{short}_ghostout_{gname}", optional=False)
                 self.wf(st, gv)
                 bound["ghost." + gname] = gv
+        for path in c.fresh_paths:
+            parts_ = path.split(".")
+            if len(parts_) == 1:
+                continue
+            cur_ = res
+            sm_ = self.spec_mode
+            self.spec_mode = True
+            try:
+                for f_ in parts_[1:-1]:
+                    cur_ = self.load_field(st, cur_, f_)
+                owner_, fty_ = self.resolve_field(st, cur_, parts_[-1])
+                fo_ = self.new_obj_sub(st, fty_.cls if fty_.kind == "obj" else None, base=f"{short}_{parts_[-1]}")
+                saved_pr = self.pending_raises
+                self.pending_raises = []
+                self.store_field(st, cur_, parts_[-1], SV(fty_, fo_.v))
+                self.pending_raises = saved_pr
+            finally:
+                self.spec_mode = sm_
         for name, expr in c.ensures.items():
             g = self.eval_spec(expr, st, bound, res, pre, c)
             st.assume(Implies(And(*self.guards), g))
